@@ -21,29 +21,9 @@ from common import q, lst, natlit, zlit, blit
 
 IMPORTS = "From Verif Require Import model.Base model.SearcherData.\nOpen Scope Z_scope.\n"
 PRELUDE = r"""
-(* driver events: a tuner event of the model, or a LATE report of a trial that is not running (model functions
-   on_trial_result + on_trial_remove applied directly; see c14_late_report_ignored) *)
-Inductive dev := Ev (e : event) | Late (t r : Z) (v : Q).
-Fixpoint first_diff' (cfg : config) (st : state) (evs : list (dev * snapshot)) (i : Z) : Z :=
-  match evs with
-  | [] => -1
-  | (Ev e, sn) :: rest =>
-      if negb (legal_b cfg st e) then -1000 - i
-      else match step cfg st e with
-           | Error _ => -2 - i
-           | Ok (st', d) => if snap_ok st' d sn then first_diff' cfg st' rest (i + 1) else i
-           end
-  | (Late t r v, sn) :: rest =>
-      match on_trial_result cfg st t r v true with
-      | Error _ => -2 - i
-      | Ok (st1, d) =>
-          let st' := match d with CONTINUE => st1 | _ => on_trial_remove st1 t end in
-          if snap_ok st' (Some d) sn then first_diff' cfg st' rest (i + 1) else i
-      end
-  end.
-Definition c14_case := (config * list (dev * snapshot))%type.
-Definition chk_case (c : c14_case) : bool := first_diff' (fst c) init (snd c) 0 =? -1.
-Definition diag_case (c : c14_case) : Z := first_diff' (fst c) init (snd c) 0.
+Definition c14_case := (config * list (event * snapshot))%type.
+Definition chk_case (c : c14_case) : bool := first_diff (fst c) init (snd c) 0 =? -1.
+Definition diag_case (c : c14_case) : Z := first_diff (fst c) init (snd c) 0.
 """
 
 POLICY = {"rungs": "Rungs", "all": "AllData", "rungs_and_last": "RungsAndLast"}
@@ -349,7 +329,7 @@ def run_case(spec, ops=None):
                     sch.on_trial_add(trial)
                     b = min(op[1], nb - 1)
                     lives[tid] = Life(b, rung_levels[b] if b < len(rung_levels) else max_t)
-                    events.append("Ev (Start %s %s)" % (zlit(tid), natlit(b)))
+                    events.append("Start %s %s" % (zlit(tid), natlit(b)))
                 else:
                     tid = int(sug.checkpoint_trial_id)
                     l = lives[tid]
@@ -358,7 +338,7 @@ def run_case(spec, ops=None):
                     l.resume_from = l.last_new if l.last_new is not None else 0
                     l.pos = l.resume_from if spec["ckpt"] else 0
                     l.status = "running"
-                    events.append("Ev (Resume %s %s)" % (zlit(tid), natlit(min(op[1], nb - 1))))
+                    events.append("Resume %s %s" % (zlit(tid), natlit(min(op[1], nb - 1))))
             elif op[0] == "report":
                 tid, v = op[1], op[2]
                 l = lives[tid]
@@ -374,7 +354,7 @@ def run_case(spec, ops=None):
                     l.status = "stopped" if decision == "STOP" else "paused"
                     if ops is None and rng.random() < spec["p_fail_after_decision"]:
                         pending_extra.append(["fail", tid])
-                events.append("Ev (Report %s %s %s %s)" % (zlit(tid), zlit(r), q(v), blit(decision == "CONTINUE")))
+                events.append("Report %s %s %s %s" % (zlit(tid), zlit(r), q(v), blit(decision == "CONTINUE")))
             elif op[0] == "late":
                 # a report of a trial that is not running any more (late report after STOP / PAUSE / failure / completion)
                 tid, v = op[1], op[2]
@@ -391,12 +371,12 @@ def run_case(spec, ops=None):
                 sch.on_trial_complete(trials[tid], {"m": v, "epoch": r})
                 l.status = "completed"
                 l.completed_at = r
-                events.append("Ev (Complete %s %s %s)" % (zlit(tid), zlit(r), q(v)))
+                events.append("Complete %s %s %s" % (zlit(tid), zlit(r), q(v)))
             elif op[0] == "fail":
                 tid = op[1]
                 sch.on_trial_error(trials[tid])
                 lives[tid].status = "failed"
-                events.append("Ev (Fail %s)" % zlit(tid))
+                events.append("Fail %s" % zlit(tid))
         except Exception as e:  # the scheduler raised: recorded, the case ends here
             exc = "%s: %s" % (type(e).__name__, str(e)[:200])
             events.append(None)
@@ -699,7 +679,7 @@ def run(ctx, replay=None):
     for spec, ops in todo:
         res = run_case(spec, ops)
         case = dict(spec=spec, ops=res["ops"])
-        kinds = [(e.split()[1].lstrip("(") if e.startswith("Ev") else "Late") for e in res["events"] if e]
+        kinds = [e.split()[0] for e in res["events"] if e]
         decisions = [s[3] for s in res["snaps"]]
         nontriv = (any(d in ("STOP", "PAUSE") for d in decisions) and
                    any(k in ("Resume", "Fail", "Complete") for k in kinds)) or \
